@@ -4,16 +4,20 @@
 From MQ Require Import Base.Prelude Alloc.Alloc Framing.Framing Conn.Types Conn.TopicAlias Conn.ConnRecord
                        Conn.Step Corr.Tok Corr.ConnCodec Corr.ConnCorr Corr.ConnTrace Mon.Proj.
 
-Record armed := mkArmed { ar_send : option N; ar_recv : option N; ar_resp : option N }.
-Definition armed0 : armed := mkArmed None None None.
+Record armed := mkArmed { ar_send : option N; ar_recv : option N; ar_resp : option N;
+                         (* what decides the client's PINGREQ interval, learnt from operations and events only *)
+                         ar_user : option N;      (* application override (set_pingreq_send_interval) *)
+                         ar_ska : option N;       (* Server Keep Alive of this connection's CONNACK, ms *)
+                         ar_ka : N }.             (* keep-alive of the CONNECT sent, ms *)
+Definition armed0 : armed := mkArmed None None None None None 0.
 
 Definition ar_get (a : armed) (k : timer) : option N :=
   match k with TPingreqSend => ar_send a | TPingreqRecv => ar_recv a | TPingrespRecv => ar_resp a end.
 Definition ar_set (a : armed) (k : timer) (v : option N) : armed :=
   match k with
-  | TPingreqSend => mkArmed v (ar_recv a) (ar_resp a)
-  | TPingreqRecv => mkArmed (ar_send a) v (ar_resp a)
-  | TPingrespRecv => mkArmed (ar_send a) (ar_recv a) v
+  | TPingreqSend => mkArmed v (ar_recv a) (ar_resp a) (ar_user a) (ar_ska a) (ar_ka a)
+  | TPingreqRecv => mkArmed (ar_send a) v (ar_resp a) (ar_user a) (ar_ska a) (ar_ka a)
+  | TPingrespRecv => mkArmed (ar_send a) (ar_recv a) v (ar_user a) (ar_ska a) (ar_ka a)
   end.
 Definition is_some {A} (o : option A) : bool := match o with Some _ => true | None => false end.
 
@@ -27,11 +31,13 @@ Fixpoint track (a : armed) (l : list event) : option armed :=
   end.
 
 (* the interval a client uses: application override, then Server Keep Alive, then CONNECT keep-alive *)
-Definition pick_interval (c : conn) : N :=
-  match c_user_ping c with
+Definition pick_interval (a : armed) : N :=
+  match ar_user a with
   | Some t => t
-  | None => match c_server_ka_ms c with Some t => t | None => c_keep_alive_ms c end
+  | None => match ar_ska a with Some t => t | None => ar_ka a end
   end.
+Definition ar_set_cfg (a : armed) (u : option N) (s : option N) (k : N) : armed :=
+  mkArmed (ar_send a) (ar_recv a) (ar_resp a) u s k.
 
 (* the events after the last ESend *)
 Fixpoint after_last_send (l : list event) (acc : list event) : list event :=
@@ -55,6 +61,17 @@ Definition judge_c15 (g : cfg) (a : armed) (o : obs) : list N * armed :=
   let evs := ob_evs o in
   (* an expiry disarms the timer that fired *)
   let a0 := match ob_op o with OTimer k => ar_set a k None | _ => a end in
+  (* the interval sources *)
+  let a0 :=
+    match ob_op o with
+    | OSetPingreqInterval u => ar_set_cfg a0 u (ar_ska a0) (ar_ka a0)
+    | OSend p => if (k_type p =? T_CONNECT) && negb (existsb is_error evs)
+                 then ar_set_cfg a0 (ar_user a0) None (k_keep_alive p * 1000) else a0
+    | _ => a0
+    end in
+  let a0 := match filter (fun p => (k_type p =? T_CONNACK) && (k_rc p =? 0)) (notifies evs) with
+            | p :: _ => match k_ska p with Some sk => ar_set_cfg a0 (ar_user a0) (Some (sk * 1000)) (ar_ka a0) | None => a0 end
+            | [] => a0 end in
   match track a0 evs with
   | None => ([1], a)                                          (* cancel of a timer that is not armed *)
   | Some a1 =>
@@ -72,7 +89,7 @@ Definition judge_c15 (g : cfg) (a : armed) (o : obs) : list N * armed :=
       else if c_is_client post && connected_post && negb (match sends evs with [] => true | _ => false end)
               && negb (existsb is_close evs) then
         (* client, connected, something was sent: PINGREQ timer re-armed after the last send with the chosen interval *)
-        let iv := pick_interval post in
+        let iv := pick_interval a1 in
         let tail := after_last_send evs [] in
         if 0 <? iv then
           (match rev (resets_of TPingreqSend tail) with
